@@ -75,6 +75,11 @@ def r2(cx):
     cx.check(bool(named), "the permit is bound to a named local (lives to the end of commit())", "permit-unbound", acq[0].where(),
              "the semaphore permit is not bound to a variable: it is released immediately and no longer limits queue occupancy")
     pu = sites(cx, b, "CommitPipeline::publish")
+    ma = sites(cx, b, "CommitBatch::mark_applied")
+    # every occupied slot is marked applied and drained on every exit (otherwise the queue fills up and
+    # enqueue panics / spins although the semaphore admits the commit)
+    mpt(cx, b, enq, ma, "every enqueued slot is marked applied on every exit")
+    mpt(cx, b, enq, pu, "every enqueued slot is drained (publish) on every exit")
     Pb = set(b.blocks_of(pu))
     for bb, pl, ty, _ in b.drops:
         if len(pl) == 1 and pl[0] in named and bb in b.live:
